@@ -492,9 +492,14 @@ Section Core.
   Definition ats_ok (ats : list (aid * fn)) : Prop :=
     Forall (fun p => fnOk (snd p)) ats /\ (ats = [] \/ dflt_ok).
 
+  (* mutate_value looks at old_value only when no new value is given and not replacing *)
+  Definition mv_uses_old (m : mv_args) : bool :=
+    negb ((negb (is_missing (mv_new m)) && negb (match mv_new m with VEmpty => true | _ => false end))
+          || mv_replace m).
+
   Definition mv_ok (m : mv_args) : Prop :=
     okV (mv_new m) /\
-    (okV (mv_old m) \/ (mv_ctor m = None /\ xf_plain (mv_transform m))) /\
+    (mv_uses_old m = true -> okV (mv_old m) \/ (mv_ctor m = None /\ xf_plain (mv_transform m))) /\
     prep_ok (mv_prepare m) /\ oattrs_ok (mv_attrs m) /\ xf_ok (mv_transform m) /\
     ats_ok (mv_attr_transforms m) /\
     (mv_inplace m = true -> freshv b (mv_old m) /\ freshv b (mv_new m)).
@@ -510,7 +515,7 @@ Section Core.
   Definition post (k : call) (v : val) : Prop :=
     match k with
     | KConstruct _ _ _ => freshv b v
-    | KMutateValue m => okV v \/ v = mv_old m
+    | KMutateValue m => okV v \/ (v = mv_old m /\ (mv_uses_old m = true \/ mv_new m = VUnchanged))
     | _ => True
     end.
 
@@ -733,7 +738,7 @@ Section Core.
     (* a value flowing through mutate_value: allowed, or the old value itself
        (top-level update/transform); fresh whenever the call is in place *)
     Definition R (v : val) : Prop :=
-      (okV v \/ v = mv_old m) /\ (mv_inplace m = true -> freshv b v).
+      (okV v \/ (v = mv_old m /\ mv_uses_old m = true)) /\ (mv_inplace m = true -> freshv b v).
     Definition Q3 (r : val * bool * list aid) : Prop :=
       let '(v, safe, _) := r in R v /\ (safe = true -> freshv b v).
     Definition Q5 (r : val * bool) : Prop := R (fst r) /\ (snd r = true -> freshv b (fst r)).
@@ -759,22 +764,28 @@ Section Core.
       SEP (v <- instantiate_ty rec t ;; ret (v, true, @nil aid)) Q3.
     Proof. sbi v Hv. sret. unfold Q3. split; auto. apply R_fresh; auto. Qed.
 
-    Lemma mutate_value_body_sep : SEP (mutate_value_body ct rec m) (fun r => okV r \/ r = mv_old m).
+    Lemma mutate_value_body_sep :
+      SEP (mutate_value_body ct rec m) (fun r => okV r \/ (r = mv_old m /\ mv_uses_old m = true)).
     Proof.
       destruct Hm as (Hnew & Hold & Hprep & Hattrs & Hxf & [Hats Hdf] & Hinp).
-      unfold mutate_value_body.
+      unfold mutate_value_body. cbv zeta.
       set (use_new := negb (is_missing (mv_new m)) && negb (match mv_new m with VEmpty => true | _ => false end)).
+      set (value0 := if use_new then mv_new m else if mv_replace m then VMissing else mv_old m).
+      assert (R0 : R value0).
+      { unfold value0. destruct use_new eqn:Eun; [split; auto; intro Hi; apply Hinp; exact Hi|].
+        destruct (mv_replace m) eqn:Erp; [apply R_fresh; exact I|].
+        split; [right; split; [reflexivity|]|intro Hi; apply Hinp; exact Hi].
+        unfold mv_uses_old. fold use_new. rewrite Eun, Erp. reflexivity. }
+      assert (O0 : use_new || mv_replace m = true -> okV value0).
+      { unfold value0. destruct use_new; simpl; [auto|]. destruct (mv_replace m); [intros; exact I|discriminate]. }
+      assert (Rr : forall r, r = value0 \/ freshv b r -> R r) by (intros r [->|Hr]; [exact R0|now apply R_fresh]).
       eapply sep_bind with (Q := R).
-      { destruct use_new eqn:Eu.
-        - assert (Rnew : forall r, r = mv_new m \/ freshv b r -> R r).
-          { intros r [->|Hr]; [|now apply R_fresh]. split; auto. intro Hi. apply Hinp; exact Hi. }
-          destruct (mv_prepare m) as [|f|sp inst]; simpl in Hprep.
-          + sret. apply Rnew; auto.
-          + eapply sep_weaken; [apply apply_fn_sep; auto|exact Rnew].
-          + eapply sep_weaken; [apply prepare_item_sep; auto|exact Rnew].
-        - sret. destruct (mv_replace m).
-          + apply R_fresh; exact I.
-          + split; auto. intro Hi. apply Hinp; exact Hi. }
+      { destruct (use_new || mv_replace m) eqn:Eu; [|sret; exact R0].
+        specialize (O0 eq_refl).
+        destruct (mv_prepare m) as [|f|sp inst]; simpl in Hprep.
+        + sret; exact R0.
+        + eapply sep_weaken; [apply apply_fn_sep; auto|exact Rr].
+        + eapply sep_weaken; [apply prepare_item_sep; auto|exact Rr]. }
       intros value1 R1. sstep.
       set (attrs := match mv_attrs m with Some l => l | None => [] end).
       assert (Hattrs' : kw_okv attrs).
@@ -784,7 +795,7 @@ Section Core.
       eapply sep_bind with (Q := Q3).
       { destruct (mv_ctor m) as [ctor|] eqn:Ector; [|sret; auto].
         assert (Ho1 : okV value1).
-        { destruct R1 as [[H1| ->] _]; auto. destruct Hold as [H1|[H1 _]]; [exact H1|discriminate]. }
+        { destruct R1 as [[H1|[-> Hu]] _]; auto. destruct (Hold Hu) as [H1|[H1 _]]; [exact H1|discriminate]. }
         assert (Hdict :
           SEP (l <- loc_of value1 ;; o <- read l ;;
                match o with
@@ -847,15 +858,15 @@ Section Core.
               sbi l0 Hl0. subst value3. simpl in H3.
               sbindT; [apply rec_sep; split; [exact H3|]|intros; sstep].
               unfold kw_okv in Hattrs'. rewrite Forall_forall in Hattrs'. exact (Hattrs' _ Hp).
-            + intros _ _. sret. split; simpl; auto. now apply R_fresh. }
+            + intros _ _. sret. split; simpl; auto; now apply R_fresh. }
         destruct value2; try exact Hbody; apply sep_fail. }
       intros [value3 safe3] [R3 S3]. simpl in R3, S3.
       eapply sep_bind with (Q := fun value4 => R value4 /\ (safe3 = true -> freshv b value4)).
       { destruct (mv_transform m) as [x|] eqn:Ex; [|sret; auto].
         eapply sep_weaken.
         - apply apply_xform_sep; [exact Hxf|].
-          destruct R3 as [[H1| ->] _]; auto. destruct Hold as [H1|[_ H1]]; auto.
-        - intros r [->|Hr]; auto. split; auto. now apply R_fresh. }
+          destruct R3 as [[H1|[-> Hu]] _]; auto. destruct (Hold Hu) as [H1|[_ H1]]; auto.
+        - intros r [->|Hr]; auto; split; auto; now apply R_fresh. }
       intros value4 [R4 S4].
       destruct (mv_attr_transforms m) as [|q0 ats] eqn:Eats; [sret; apply R4|].
       assert (Hd : dflt_ok) by (destruct Hdf as [?|?]; [discriminate|assumption]).
@@ -872,10 +883,13 @@ Section Core.
     Qed.
   End MutateValue.
 
-  Lemma mutate_value_sep m : mv_ok m -> SEP (mutate_value ct rec m) (fun r => okV r \/ r = mv_old m).
+  Lemma mutate_value_sep m : mv_ok m -> SEP (mutate_value ct rec m) (post (KMutateValue m)).
   Proof.
-    intro H. unfold mutate_value.
-    destruct (mv_new m); try (apply mutate_value_body_sep; exact H). sret. auto.
+    intro H. unfold mutate_value. simpl.
+    destruct (mv_new m) eqn:E;
+      try (eapply sep_weaken; [apply mutate_value_body_sep; exact H|
+           intros r [Hr|[Hr Hu]]; [left; exact Hr|right; split; [exact Hr|left; exact Hu]]]).
+    sret. right. split; [reflexivity|right; exact E].
   Qed.
   (* ---------------- collections ---------------- *)
   Lemma read_list_sep v :
@@ -981,7 +995,7 @@ Section Core.
     intros H Hi. unfold set_inserter. sbi ok Hok. destruct (negb ok); [apply sep_fail|].
     sbi p Hp. destruct Hp as [-> Hp]. simpl in H. assert (Hxs : Forall okV (snd p)) by (apply Hp; simpl; auto).
     eapply sep_bind with (Q := Forall okV).
-    { destruct (py_truthy index); [apply set_discard_sep; auto|now sret]. }
+    { destruct (negb (is_missing index)); [apply set_discard_sep; auto|now sret]. }
     intros xs1 H1. sbi b0 Hb0. apply sep_write; auto. simpl.
     destruct b0; auto. apply Forall_app_1; auto.
   Qed.
@@ -1009,7 +1023,7 @@ Section Core.
     { eapply sep_weaken; [apply Hrec; simpl; unfold mv_ok; simpl|].
       - split; [exact Hnew|]. split; [left; exact Hex2|]. split; [exact Hsp|]. split; [exact Hat|].
         split; [exact Hxf|]. split; [exact Hats|]. discriminate.
-      - simpl. intros r [Hr| ->]; auto. }
+      - simpl. intros r [Hr|[-> _]]; auto. }
     intros new_item Hni.
     sbindT.
     { destruct fam; [apply seq_inserter_sep|apply map_inserter_sep|apply set_inserter_sep]; auto. }
@@ -1085,14 +1099,21 @@ Section Core.
     SEP (prepare_attr_value ct rec sp inst value attrs) okV.
   Proof.
     intros Hsp Hv Ha. unfold prepare_attr_value.
-    eapply sep_bind with (Q := okV).
-    { eapply sep_weaken; [apply Hrec; simpl; unfold mv_ok; simpl|].
-      - split; [exact Hv|]. split; [left; exact I|].
-        split; [destruct Hsp as (H & _); destruct (a_prepare sp); [exact H|exact I]|].
-        split; [exact Ha|]. split; [exact I|]. split; [split; [constructor|left; reflexivity]|]. discriminate.
-      - simpl. intros r [Hr| ->]; auto. exact I. }
-    intros v Hv'.
-    destruct (ty_is_collection (a_ty sp)); [apply coll_prepare_sep; auto|now sret].
+    assert (Hgen : SEP
+      (v <- rec (KMutateValue
+                  (mkmv VMissing value false
+                        (match a_prepare sp with Some f => PAttr f | None => PNone end)
+                        attrs (Some (ctor_of_ty (a_ty sp))) (Some (a_ty sp)) None [] false)) ;;
+       if ty_is_collection (a_ty sp) then coll_prepare ct rec sp inst v else ret v) okV).
+    { eapply sep_bind with (Q := okV).
+      { eapply sep_weaken; [apply Hrec; simpl; unfold mv_ok; simpl|].
+        - split; [exact Hv|]. split; [left; exact I|].
+          split; [destruct Hsp as (H & _); destruct (a_prepare sp); [exact H|exact I]|].
+          split; [exact Ha|]. split; [exact I|]. split; [split; [constructor|left; reflexivity]|]. discriminate.
+        - simpl. intros r [Hr|[-> _]]; auto. exact I. }
+      intros v Hv'.
+      destruct (ty_is_collection (a_ty sp)); [apply coll_prepare_sep; auto|now sret]. }
+    destruct value; try exact Hgen. now sret.
   Qed.
 
   Lemma setattr_sep l a v force skip :
@@ -1358,3 +1379,296 @@ Section Exec.
       + intros. eapply body_top; eauto.
   Qed.
 End Exec.
+
+(* ------------------------------------------------------------------ *)
+(** * Reachability: what the invariant says about the object graph *)
+Section ReachSep.
+  Variable b : nat.
+  Variable A : loc -> Prop.
+  Variable h0 : list obj.
+  Hypothesis AC : A_closed b A h0.
+
+  Lemma vrefs_okv xs l : Forall (okv b A) xs -> In l (vrefs xs) -> b <= l \/ A l.
+  Proof.
+    unfold vrefs. intros H Hin. apply in_flat_map in Hin. destruct Hin as [v [Hv Hl]].
+    rewrite Forall_forall in H. specialize (H _ Hv). destruct v; simpl in Hl; try contradiction.
+    destruct Hl as [<-|[]]. exact H.
+  Qed.
+
+  Lemma obj_ok_refs o l : obj_ok b A o -> In l (refs_of o) -> b <= l \/ A l.
+  Proof.
+    destruct o as [xs|kvs|xs|c d]; simpl; intros H Hin.
+    - eapply vrefs_okv; eauto.
+    - apply in_app_or in Hin. destruct Hin as [Hin|Hin]; (eapply vrefs_okv; [|exact Hin]);
+        rewrite Forall_forall in *; intros v Hv; apply in_map_iff in Hv; destruct Hv as [p [<- Hp]];
+        apply (H _ Hp).
+    - eapply vrefs_okv; eauto.
+    - eapply vrefs_okv; [|exact Hin]. rewrite Forall_forall in *. intros v Hv.
+      apply in_map_iff in Hv. destruct Hv as [p [<- Hp]]. apply (H _ Hp).
+  Qed.
+
+  (* everything reachable from an allowed or fresh location is allowed or fresh *)
+  Theorem sinv_reach s l0 l :
+    sinv b A h0 s -> (b <= l0 \/ A l0) -> reach (heap s) l0 l -> b <= l \/ A l.
+  Proof.
+    intros (L & Old & Cl) H0 R. induction R as [|l o l' R IH Hn Hin]; auto.
+    eapply obj_ok_refs; [|exact Hin].
+    destruct (Nat.lt_ge_cases l b) as [Hlt|Hge].
+    - destruct IH as [IH|IH]; [lia|]. eapply AC; eauto. rewrite <- Old; auto.
+    - eapply Cl; eauto.
+  Qed.
+End ReachSep.
+
+(* ------------------------------------------------------------------ *)
+(** * The public operations *)
+Section Helpers.
+  Variable ct : ctable.
+  Hypothesis no_dnc : forall c k, lookup_cls ct c = Some k -> c_dnc k = false.
+  Hypothesis wf_owner : forall c k, lookup_cls ct c = Some k -> c_owner k = c.
+  Variable b : nat.
+  Variable A : loc -> Prop.
+  Variable h0 : list obj.
+  Hypothesis AC : A_closed b A h0.
+  Hypothesis ct_ok : table_ok ct b A.
+  Hypothesis A_dnc : dnc_allowed ct b A h0.
+
+  Local Notation okV := (okv b A).
+  Local Notation SEP := (sep b A h0).
+  Local Notation specOk := (spec_ok b A).
+  Notation rec := (exec ct XFUEL).
+  Let Hrec := proj1 (exec_sep ct no_dnc wf_owner b A h0 AC ct_ok A_dnc XFUEL).
+  Local Opaque exec XFUEL.
+
+  Local Hint Resolve (read_inst_sep b A h0 AC) (cls_of_sep ct b A h0)
+    (getattr_default_any ct b A h0 AC) (protect_sep ct no_dnc b A h0 AC ct_ok A_dnc)
+    (read_list_sep b A h0 AC) (read_dict_sep b A h0 AC) (read_set_sep b A h0 AC) : sp.
+
+  Definition hargs_ok (h : hargs) : Prop :=
+    Forall okV (h_pos h) /\ okV (h_index h) /\ oattrs_ok b A (h_kw h) /\
+    ats_ok ct b A (h_kwfn h) /\ ofn_ok b A (h_fn h).
+
+  (* the helper forms covered: copy-on-write everywhere; in place for the
+     helpers that never read the attribute through getattr(obj, name, default) *)
+  Definition inplace_form (hp : helper) : Prop :=
+    match hp with HWith _ | HReset _ | HResetTop | HUpdateTop | HTransformTop => True | _ => False end.
+  Definition form_ok (l : loc) (hp : helper) (h : hargs) : Prop :=
+    (h_inplace h = true -> b <= l /\ inplace_form hp /\ Forall (freshv b) (h_pos h)) /\
+    match hp with
+    | HTransformTop => match h_fn h with Some f => is_appended f = false | None => True end
+    | HUpdate a | HTransform a => dncname ct a = false \/ dflt_ok ct b A
+    | _ => True
+    end.
+
+  Lemma nth_okv xs n : Forall okV xs -> okV (nth n xs VMissing).
+  Proof.
+    intro H. destruct (nth_in_or_default n xs VMissing) as [Hin| ->]; [|exact I].
+    rewrite Forall_forall in H. exact (H _ Hin).
+  Qed.
+  Lemma nth_freshv xs n : Forall (freshv b) xs -> freshv b (nth n xs VMissing).
+  Proof.
+    intro H. destruct (nth_in_or_default n xs VMissing) as [Hin| ->]; [|exact I].
+    rewrite Forall_forall in H. exact (H _ Hin).
+  Qed.
+
+  Lemma spec_for_sep l a : SEP (spec_for ct l a) (fun r => specOk (snd r)).
+  Proof.
+    unfold spec_for. sbi p Hp. sbi k Hk. destruct (lookup_attr k a) eqn:E; [|apply sep_fail].
+    sret. simpl. eapply lookup_attr_ok; eauto.
+  Qed.
+
+  Lemma spec_for_sep' l a :
+    SEP (spec_for ct l a)
+        (fun r => specOk (snd r) /\ a_name (snd r) = a /\ In (fst r) ct /\ In (snd r) (c_attrs (fst r)) /\
+                  (l < b -> exists c d, nth_error h0 l = Some (OInst c d) /\
+                                        lookup_cls ct c = Some (fst r) /\ lookup_attr (fst r) a = Some (snd r))).
+  Proof.
+    unfold spec_for. sbi p Hp. sbi k Hk. destruct (lookup_attr k a) eqn:E; [|apply sep_fail].
+    sret. simpl. destruct (lookup_attr_in _ _ _ E) as [Hin Hn].
+    split; [eapply lookup_attr_ok; eauto|]. split; [exact Hn|]. split; [eapply lookup_cls_in; eauto|].
+    split; [exact Hin|]. intro Hl. destruct Hp as [_ Hp]. exists (fst p), (snd p). auto.
+  Qed.
+
+  (* the old value handed to mutate_value by update_<attr> / transform_<attr> *)
+  Lemma current_value_sep l sp k used :
+    In k ct -> In sp (c_attrs k) ->
+    (dncname ct (a_name sp) = false \/ dflt_ok ct b A) ->
+    (l < b -> exists c d, nth_error h0 l = Some (OInst c d) /\
+                          lookup_cls ct c = Some k /\ lookup_attr k (a_name sp) = Some sp) ->
+    SEP (current_value ct l sp false used) (fun r => used = true -> okV r).
+  Proof.
+    intros Hk Hsp Hd Hold. unfold current_value.
+    eapply sep_bind with (Q := fun v => a_dnc sp = true -> okV v).
+    { unfold getattr_default. sbi p Hp. destruct (assoc (a_name sp) (snd p)) eqn:E.
+      - sret. intro Hdnc. destruct (Nat.lt_ge_cases l b) as [Hlt|Hge].
+        + destruct (Hold Hlt) as (c & d & H1 & H2 & H3). destruct Hp as [_ Hp]. rewrite (Hp Hlt) in H1.
+          inversion H1; subst. eapply A_dnc; eauto. apply assoc_in. exact E.
+        + eapply fok_assoc; [|exact E]. eapply rd_fok; eauto. simpl; auto.
+      - sbi k' Hk'. sret. intro Hdnc.
+        destruct Hd as [Hd|Hd]; [rewrite (dncname_true ct k sp Hk Hsp Hdnc) in Hd; discriminate|].
+        eapply Hd; eauto. }
+    intros v Hv. simpl. destruct (a_dnc sp); simpl.
+    - sret. auto.
+    - destruct used; simpl; [|sret; discriminate].
+      eapply sep_weaken; [sprim|]. intros r Hr _. now apply freshv_okv.
+  Qed.
+
+  Lemma uses_old_sentinel v : negb ((negb (is_missing v) && negb (match v with VEmpty => true | _ => false end)) || false) = true -> is_sentinel v = true.
+  Proof. destruct v; simpl; auto. Qed.
+
+  Lemma mk_mutator_sep sp l : SEP (mk_mutator ct sp l false) (freshv b).
+  Proof.
+    unfold mk_mutator. sbi p Hp. sbi k Hk. sbindT; [sgo|]. intros _ _.
+    sbi c Hc. destruct (is_missing c || false) eqn:E.
+    - sret. destruct c; simpl in *; auto; discriminate.
+    - sprim.
+  Qed.
+
+  Definition Qh (l : loc) (r : val) : Prop := okV r \/ r = VRef l.
+
+  Lemma Qma_Qh l r : (b <= l \/ True) -> Qma b l r -> Qh l r.
+  Proof. intros _ [l' [-> [->|H]]]; [right; reflexivity|left; simpl; auto]. Qed.
+
+  Lemma with_attr_sep l sp new attrs inplace :
+    specOk sp -> okV new -> oattrs_ok b A attrs -> (inplace = true -> b <= l) ->
+    SEP (with_attr ct l sp new attrs inplace) (Qh l).
+  Proof.
+    intros Hsp Hn Ha Hi. unfold with_attr.
+    sbind; [eapply prepare_attr_value_sep; eauto|]. intros v Hv.
+    eapply sep_weaken; [eapply mutate_attr_sep; eauto|]. intros r Hr. apply Qma_Qh; auto.
+  Qed.
+
+  Lemma copy_loc_sep l : SEP (v <- deepcopy ct (VRef l) ;; loc_of v) (fun l' => b <= l').
+  Proof.
+    sbind; [eapply deepcopy_sep; eauto|]. intros r [l' [-> H]]. simpl. now sret.
+  Qed.
+
+  Lemma target_sep l inplace :
+    (inplace = true -> b <= l) ->
+    SEP (if inplace then ret l else (v <- deepcopy ct (VRef l) ;; loc_of v)) (fun l' => b <= l').
+  Proof. intro H. destruct inplace; [sret; auto|apply copy_loc_sep]. Qed.
+
+  Lemma item_tail_sep l a c inplace :
+    okV c -> (inplace = true -> b <= l) ->
+    SEP (mutate_attr ct rec l a c inplace false false false) (Qh l).
+  Proof.
+    intros Hc Hi. eapply sep_weaken; [eapply mutate_attr_sep; eauto|]. intros r Hr. apply Qma_Qh; auto.
+  Qed.
+
+  Theorem run_helper_sep l hp h :
+    hargs_ok h -> form_ok l hp h -> SEP (run_helper ct l hp h) (Qh l).
+  Proof.
+    intros (Hpos & Hidx & Hkw & Hkwfn & Hfn) [Hinp Hform]. unfold run_helper.
+    destruct (negb (h_if h)); [sret; right; reflexivity|].
+    assert (Hp0 : okV (pos0 h)) by (apply nth_okv; exact Hpos).
+    assert (Hp1 : okV (pos1 h)) by (apply nth_okv; exact Hpos).
+    assert (Hbl : h_inplace h = true -> b <= l) by (intro E; apply Hinp; exact E).
+    destruct hp; try contradiction.
+    - (* HWith *) sbind; [apply spec_for_sep|]. intros r Hr. apply with_attr_sep; auto.
+    - (* HUpdate *)
+      destruct (h_inplace h) eqn:Ein; [destruct (Hinp eq_refl) as (_ & [] & _)|].
+      assert (Hgen : SEP
+        (r <- spec_for ct l a ;; let sp := snd r in
+         old <- current_value ct l sp false (is_sentinel (pos0 h)) ;;
+         v <- rec (KMutateValue (mkmv old (pos0 h) false PNone (h_kw h)
+                                      (Some (ctor_of_ty (a_ty sp))) (Some (a_ty sp)) None [] false)) ;;
+         with_attr ct l sp v None false) (Qh l)).
+      { sbind; [apply spec_for_sep'|]. intros r (Hsp & Hname & Hk & Hin & Hold). cbv zeta.
+        sbind; [eapply current_value_sep; eauto; rewrite Hname; auto|]. intros old Hold'.
+        eapply sep_bind with (Q := okV).
+        { eapply sep_weaken; [apply Hrec; simpl; unfold mv_ok; simpl|].
+          - split; [exact Hp0|]. split; [intro Hu; left; apply Hold'; apply uses_old_sentinel; exact Hu|].
+            split; [exact I|]. split; [exact Hkw|]. split; [exact I|]. split; [apply ats_ok_nil|]. discriminate.
+          - simpl. intros v [Hv|[-> [Hu|Hu]]]; auto.
+            + apply Hold'. apply uses_old_sentinel. exact Hu.
+            + apply Hold'. rewrite Hu. reflexivity. }
+        intros v Hv. apply with_attr_sep; [exact Hsp|exact Hv|exact I|discriminate]. }
+      destruct (pos0 h); try exact Hgen. sret. right; reflexivity.
+    - (* HTransform *)
+      destruct (h_inplace h) eqn:Ein; [destruct (Hinp eq_refl) as (_ & [] & _)|].
+      sbind; [apply spec_for_sep'|]. intros r (Hsp & Hname & Hk & Hin & Hold). cbv zeta.
+      sbind; [eapply current_value_sep; eauto; rewrite Hname; auto|]. intros old Hold'.
+      specialize (Hold' eq_refl).
+      eapply sep_bind with (Q := okV).
+      { eapply sep_weaken; [apply Hrec; simpl; unfold mv_ok; simpl|].
+        - split; [exact I|]. split; [intro Hu; left; exact Hold'|].
+          split; [exact I|]. split; [exact I|]. split; [destruct (h_fn h); simpl; auto|].
+          split; [exact Hkwfn|]. discriminate.
+        - simpl. intros v [Hv|[-> _]]; auto. }
+      intros v Hv. apply with_attr_sep; [exact Hsp|exact Hv|exact I|discriminate].
+    - (* HReset *)
+      sbind; [apply target_sep; exact Hbl|]. intros l' Hl'.
+      sbindT; [|intros; sret; left; simpl; auto].
+      eapply thawed_sep; eauto. eapply sep_weaken; [apply Hrec; exact Hl'|auto].
+    - (* HWithItem *)
+      destruct (h_inplace h) eqn:Ein; [destruct (Hinp eq_refl) as (_ & [] & _)|].
+      sbind; [apply spec_for_sep|]. intros r Hr. cbv zeta.
+      sbind; [apply mk_mutator_sep|]. intros c Hc.
+      eapply sep_bind with (Q := freshv b).
+      { destruct (family_of (a_ty (snd r))) as [[| |]|]; try apply sep_fail;
+          (eapply mutate_collection_sep; eauto; unfold io_ok; simpl;
+           (split; [|split; [|split; [exact Hkw|split; [exact I|apply ats_ok_nil]]]])); auto; try exact I.
+        - destruct (h_pos h) as [|k0 t]; [exact I|]. inversion Hpos; auto.
+        - destruct (h_pos h) as [|k0 [|v0 t]]; try exact I. inversion Hpos as [|? ? _ H2]; inversion H2; auto. }
+      intros c' Hc'. apply item_tail_sep; [now apply freshv_okv|discriminate].
+    - (* HUpdateItem *)
+      destruct (h_inplace h) eqn:Ein; [destruct (Hinp eq_refl) as (_ & [] & _)|].
+      sbind; [apply spec_for_sep|]. intros r Hr. cbv zeta.
+      sbind; [apply mk_mutator_sep|]. intros c Hc.
+      eapply sep_bind with (Q := freshv b).
+      { destruct (family_of (a_ty (snd r))) as [[| |]|]; try apply sep_fail;
+          (eapply mutate_collection_sep; eauto; unfold io_ok; simpl;
+           (split; [exact Hp0|split; [exact Hp1|split; [exact Hkw|split; [exact I|apply ats_ok_nil]]]])). }
+      intros c' Hc'. apply item_tail_sep; [now apply freshv_okv|discriminate].
+    - (* HTransformItem *)
+      destruct (h_inplace h) eqn:Ein; [destruct (Hinp eq_refl) as (_ & [] & _)|].
+      sbind; [apply spec_for_sep|]. intros r Hr. cbv zeta.
+      sbind; [apply mk_mutator_sep|]. intros c Hc.
+      eapply sep_bind with (Q := freshv b).
+      { destruct (family_of (a_ty (snd r))) as [fam|]; try apply sep_fail.
+        eapply mutate_collection_sep; eauto. unfold io_ok; simpl.
+        split; [exact Hp0|split; [exact I|split; [exact I|split; [|exact Hkwfn]]]].
+        destruct (h_fn h); [exact Hfn|exact I]. }
+      intros c' Hc'. apply item_tail_sep; [now apply freshv_okv|discriminate].
+    - (* HWithoutItem *)
+      destruct (h_inplace h) eqn:Ein; [destruct (Hinp eq_refl) as (_ & [] & _)|].
+      sbind; [apply spec_for_sep|]. intros r Hr. cbv zeta.
+      sbind; [apply mk_mutator_sep|]. intros c00 Hc00.
+      eapply sep_bind with (Q := freshv b).
+      { destruct (is_missing c00); [eapply create_collection_sep; eauto|now sret]. }
+      intros c Hc. assert (Hoc := freshv_okv b A _ Hc).
+      sbindT.
+      { destruct (family_of (a_ty (snd r))) as [[| |]|]; try apply sep_fail.
+        - sbind; [eapply seq_extractor_sep; eauto|]. intros ex _.
+          destruct (fst ex); try apply sep_fail; try (now sret); cbv zeta.
+          + sbi p Hp. destruct Hp as [-> Hp]. simpl in Hc. specialize (Hp Hoc).
+            destruct (norm_index _ _); [|apply sep_fail].
+            apply sep_write; auto. simpl. now apply Forall_remove_at.
+          + sbi p Hp. destruct Hp as [-> Hp]. simpl in Hc. specialize (Hp Hoc).
+            destruct (norm_index _ _); [|apply sep_fail].
+            apply sep_write; auto. simpl. now apply Forall_remove_at.
+        - sbind; [eapply map_extractor_sep; eauto|]. intros ex _.
+          sbi p Hp. destruct Hp as [-> Hp]. simpl in Hc. specialize (Hp Hoc). sbi h' Hh.
+          apply sep_write; auto. simpl. now apply Forall_filter.
+        - sbind; [eapply set_extractor_sep; eauto|]. intros ex _.
+          sbi p Hp. destruct Hp as [-> Hp]. simpl in Hc. specialize (Hp Hoc).
+          sbind; [eapply set_discard_sep; eauto|]. intros xs Hxs.
+          apply sep_write; auto. }
+      intros _ _. apply item_tail_sep; [exact Hoc|discriminate].
+    - (* HUpdateTop *)
+      eapply sep_weaken; [apply Hrec; simpl; unfold mv_ok; simpl|simpl; intros r [Hr|[-> _]]; [left; exact Hr|right; reflexivity]].
+      split; [exact Hp0|]. split; [intros _; right; split; [reflexivity|exact I]|]. split; [exact I|].
+      split; [exact Hkw|]. split; [exact I|]. split; [apply ats_ok_nil|].
+      intro E. destruct (Hinp E) as (Hl & _ & Hf). split; [exact Hl|apply nth_freshv; exact Hf].
+    - (* HTransformTop *)
+      eapply sep_weaken; [apply Hrec; simpl; unfold mv_ok; simpl|simpl; intros r [Hr|[-> _]]; [left; exact Hr|right; reflexivity]].
+      split; [exact I|]. split; [intros _; right; split; [reflexivity|destruct (h_fn h); simpl; auto]|].
+      split; [exact I|]. split; [exact I|]. split; [destruct (h_fn h); simpl; auto|].
+      split; [exact Hkwfn|]. intro E. destruct (Hinp E) as (Hl & _ & Hf). split; [exact Hl|exact I].
+    - (* HResetTop *)
+      sbind; [apply target_sep; exact Hbl|]. intros l' Hl'.
+      sbi p Hp. sbi k Hk. sbindT; [|intros; sret; left; simpl; auto].
+      eapply thawed_sep; eauto. apply sep_iterM. intros sp _.
+      apply sep_catch; [|now sret].
+      sbindT; [eapply sep_weaken; [apply Hrec; exact Hl'|auto]|]. intros; now sret.
+  Qed.
+End Helpers.
